@@ -5,44 +5,29 @@
    conversion; leaf_value = convertStringToXSDValue ; mkValueMtEntry on the literal;
    proof_value_entry = MtEntry of the Value returned by Proof).  Proofs: Value/LeafTheory.v.
 
-   Floats are abstract (IEEE bit patterns).  The three premises about F and X are
-   the assumed behaviour of strconv.ParseFloat, ld.GetCanonicalDouble ("%1.15E") and
-   Go's float64 -> int64 conversion; every instance that occurs in a run is
-   re-validated inside the case files (Value/LeafRun.v float_hyps_val). *)
+   Floats are abstract (IEEE bit patterns).  The premise about F is the assumed
+   behaviour of strconv.ParseFloat and ld.GetCanonicalDouble ("%1.15E"); every
+   instance that occurs in a run is re-validated inside the case files
+   (Value/LeafRun.v canon_idem_at), as is Value.Model.float_int64 against the real
+   `f == float64(int64(f))` test (int64_at). *)
 From Coq Require Import ZArith List String.
 From GSP Require Import Base.Prelude Value.Time Value.Model Value.Leaf Value.LeafTheory.
 Import ListNotations.
 Open Scope Z_scope.
 
-(* For every hasher H, every literal {"@value": v, "@type": declared?} whose JSON
-   value v is of the natural kind for its datatype dt (natural: any string; a
-   boolean for xsd:boolean; the numbers 0 and 1 for xsd:boolean; a number for
-   xsd:double; a number for the five integer types whose integral value has
-   magnitude below 10^16, i.e. at most 16 significant digits):
-   HashValueWithHasher(H, dt, RawValue) = the leaf computed from the RDF literal
-   (equal values, or the same failure on both sides). *)
+(* For every hasher H and every literal {"@value": v, "@type": declared?} whose JSON
+   value v is a boolean, a number or a string (this covers the natural kinds of
+   every supported datatype: numbers or numeric strings for the integer types and
+   xsd:double, booleans or 0/1 for xsd:boolean, strings for xsd:dateTime and
+   xsd:string), with (lex, dt) the lexical form and datatype json-gold gives the
+   RDF literal:  HashValueWithHasher(H, dt, RawValue) = the leaf computed from the
+   literal (equal values, or the same failure on both sides). *)
 Theorem C10_agree :
-  forall (F : floats) (X : floats_ext),
+  forall (F : floats),
   (forall b c, f_canon F b = Some c ->
                exists b', f_parse F c = Some (Some b') /\ f_canon F b' = Some c) ->
-  (forall b z, f_int64 X b = Some (Some z) -> Z.abs z < 10 ^ 16 ->
-               exists c, f_canon F b = Some c /\ int_from_str c = Some z) ->
-  (f_int64 X bits_zero = Some (Some 0) /\ f_canon F bits_zero = Some "0.0E0"%string /\
-   f_int64 X bits_one = Some (Some 1) /\ f_canon F bits_one = Some "1.0E0"%string) ->
   forall (H : hasher) (declared : option string) (v : jval) (lex dt : string),
-  to_rdf_lex F X declared v = Ok (lex, dt) ->
-  match v with
-  | JStr _ => True
-  | JBool _ => classify dt = DBool
-  | JNum b =>
-    match classify dt with
-    | DBool => b = bits_zero \/ b = bits_one
-    | DInt _ => forall z, f_int64 X b = Some (Some z) -> Z.abs z < 10 ^ 16
-    | DDouble => True
-    | _ => False
-    end
-  | JOther => False
-  end ->
+  to_rdf_lex F declared v = Ok (lex, dt) ->
   value_to_hash H F dt (raw v) = leaf_value H F dt lex.
 Proof. exact agree. Qed.
 Print Assumptions C10_agree.
@@ -59,8 +44,8 @@ Theorem C10_kind :
 Proof. exact kind_and_proof_value. Qed.
 Print Assumptions C10_kind.
 
-(* fmt "%d" followed by big.Rat.SetString / IsInt / Num is the identity: the step
-   that makes native JSON integers agree on both paths *)
+(* fmt "%d" followed by big.Rat.SetString / IsInt / Num is the identity: the common
+   lexical form of an integral JSON number denotes that integer on both paths *)
 Theorem C10_int_roundtrip : forall z : Z, int_from_str (z_to_string z) = Some z.
 Proof. exact int_from_str_z_to_string. Qed.
 Print Assumptions C10_int_roundtrip.
